@@ -10,6 +10,8 @@
    All statements quantify over the oracle tables (what YAML parsing sees), the chooser (Go's map
    iteration order), the fuel, all three arguments, ALL fault positions and all well-formed states. *)
 From KV Require Import Fs.LocPath Fs.LocPathProofs Fs.Localize Fs.LocalizeProofs Fs.LocalizeExamples.
+From KV Require Import Fs.LocalizeBuild Fs.LocalizeBuildProofs.
+From KV Require Res.Pipeline.
 Open Scope list_scope.
 
 (* Every mkdir / write that any run attempts — whatever fails, wherever — targets a path inside
@@ -139,6 +141,37 @@ Theorem C18_equivalent_partial :
        lookup (join_abs (lc_dst lc) s) (w_fs w') = Some EDir).
 Proof. exact loc_file_copies. Qed.
 Print Assumptions C18_equivalent_partial.
+
+(* Towards "building the localized copy equals building the original", in the integrated build model
+   (Res/Pipeline.v) and for the directive set the two models share: `resources` (files and nested
+   kustomization roots) plus every non-path directive, carried opaquely ([dirs]).
+     read_tree    resolves a root of a file-system state into the tree a build loads (the unique
+                  kustomization file, its resources entries joined to the root: a resource file inside
+                  the root, or a directory read recursively);
+     mirror_ok    DECIDABLE: every binding below newDir is an existing source directory, a
+                  byte-identical copy of the file at the mirrored source path, a localized plugin, or a
+                  localized kustomization whose resources are the cleaned references of the source's,
+                  all resolving inside the scope.
+   PROVED: for EVERY pair of states related by mirror_ok, the tree read from the destination is the
+   tree read from the source, so Pipeline.build gives the same result whatever YAML parsing yields
+   ([docs]) and whatever the non-path directives are.
+   CHECKED, not proved: that the final state of a successful run satisfies mirror_ok and that the
+   destination reads whenever the source does — Corr/C18.v evaluates both on the final state of every
+   successful run (fault-free or not) of every case, and that state is compared with the
+   implementation's.  Outside: patches, generators with file sources, configurations, openapi path —
+   Pipeline.v has no syntax for them (they are covered per reference by C18_equivalent_partial and on
+   the implementation by the krusty.Run oracle). *)
+Theorem C18_equivalent_build_partial :
+  forall orc scope nd s0 s',
+    good_path scope = true -> good_path nd = true -> fs_wf s0 -> fs_wf s' ->
+    mirror_ok orc scope nd s0 s' = true ->
+    forall fuel fuel' r t t', good_path r = true ->
+      read_tree orc fuel s' (nd ++ r) = Some t' ->
+      read_tree orc fuel' s0 (scope ++ r) = Some t ->
+      forall nonstr docs dirs o,
+        Pipeline.build nonstr o (to_ptree docs dirs t') = Pipeline.build nonstr o (to_ptree docs dirs t).
+Proof. exact mirror_build_eq. Qed.
+Print Assumptions C18_equivalent_build_partial.
 
 (* ---- obligations over the tables regenerated from /repo (Gen/LocalizeTables.v) ---- *)
 
